@@ -76,17 +76,20 @@ class Fn:
         return n
 
     def enclosing(self, node, types):
-        n = self.parents.get(node)
-        while n is not None:
+        for n in self.ancestors(node):
             if isinstance(n, types):
                 return n
-            n = self.parents.get(n)
         return None
 
     def ancestors(self, node):
+        """Enclosing nodes, innermost first.  A statement in the `else:` clause of a loop is NOT inside that loop (it runs once, after the loop):
+        the loop itself is skipped."""
+        child = node
         n = self.parents.get(node)
         while n is not None:
-            yield n
+            if not (isinstance(n, (ast.For, ast.While, ast.AsyncFor)) and any(child is x for x in n.orelse)):
+                yield n
+            child = n
             n = self.parents.get(n)
 
     @property
